@@ -372,6 +372,62 @@ def _sites_case(cfg, values):
     return Case(call, {}, [])
 
 
+
+# ------------------------------------------------------------------ the converters of the other attribute types: the value kept is of the DECLARED type (bounded value table)
+import datetime as _dt, uuid as _uuid
+_D, _DT, _T, _TD = _dt.date, _dt.datetime, _dt.time, _dt.timedelta
+_U = _uuid.UUID('12345678-1234-5678-1234-567812345678')
+REJECT = 'rejected'
+TYPED = {
+    # converter class name -> (declared type, [(candidate, expected normalised value or REJECT)]); precision-dependent entries are functions of the precision
+    'DateConverter': (_D, [(_D(2020, 1, 2), _D(2020, 1, 2)), (_DT(2020, 1, 2, 3, 4, 5), _D(2020, 1, 2)), (_DT(2020, 1, 2), _D(2020, 1, 2)), ('2020-01-02', _D(2020, 1, 2)), (5, REJECT), (1.5, REJECT),
+                           ([], REJECT), (_T(1, 2), REJECT), (b'2020-01-02', REJECT)]),
+    'DatetimeConverter': (_DT, [(_DT(2020, 1, 2, 3, 4, 5, 123456), lambda p: _DT(2020, 1, 2, 3, 4, 5, 123456 // 10 ** (6 - p) * 10 ** (6 - p))), (_DT(2020, 1, 2), _DT(2020, 1, 2)),
+                                (_D(2020, 1, 2), REJECT), ('2020-01-02 03:04:05', _DT(2020, 1, 2, 3, 4, 5)), (5, REJECT), (_T(1, 2), REJECT), (None.__class__, REJECT)]),
+    'TimeConverter': (_T, [(_T(3, 4, 5, 123456), lambda p: _T(3, 4, 5, 123456 // 10 ** (6 - p) * 10 ** (6 - p))), (_T(0, 0), _T(0, 0)), ('03:04:05', _T(3, 4, 5)), (_DT(2020, 1, 2, 3, 4), REJECT), (5, REJECT),
+                           (_TD(hours=1), REJECT)]),
+    'TimedeltaConverter': (_TD, [(_TD(1, 2, 123456), lambda p: _TD(1, 2, 123456 // 10 ** (6 - p) * 10 ** (6 - p))), (_TD(0), _TD(0)), (_TD(-1, 5, 7), lambda p: _TD(-1, 5, 7 // 10 ** (6 - p) * 10 ** (6 - p))),
+                                 (5, REJECT), (_T(1, 2), REJECT), (1.5, REJECT)]),
+    'BoolConverter': (bool, [(True, True), (False, False), (1, True), (0, False), ('', False), ('x', True), ([], False), (None, False)]),
+    'BlobConverter': (bytes, [(b'ab', b'ab'), (b'', b''), ('ab', REJECT), (5, REJECT), ([1], REJECT)]),
+    'UuidConverter': (_uuid.UUID, [(_U, _U), (_U.bytes, _U), (_U.hex, _U), (str(_U), _U), (_U.int, _U), (1.5, REJECT), ([], REJECT)]),
+}
+
+
+def _ty_configs(tier):
+    out = []
+    for cname, (T, rows) in TYPED.items():
+        precisions = (0, 3, 6) if cname in ('DatetimeConverter', 'TimeConverter', 'TimedeltaConverter') else (None,)
+        for p in precisions:
+            for k in range(len(rows)): out.append(dict(converter=cname, precision=p, row=k))
+    return out
+
+
+def _ty_case(cfg, values):
+    def call():
+        cls = getattr(dp, cfg['converter']); T, rows = TYPED[cfg['converter']]
+        conv = object.__new__(cls)
+        conv.attr = Bag(py_type=T, args=(), kwargs={}, name='x'); conv.provider = Bag(dialect='SQLite'); conv.py_type = T
+        if cfg['precision'] is not None: conv.precision = cfg['precision']
+        cand, want = rows[cfg['row']]
+        if callable(want) and want is not REJECT: want = want(cfg['precision'])
+        try: got = conv.validate(cand)
+        except (TypeError, ValueError) as e: return 'rejected', None, want, None
+        try: again = conv.validate(got)
+        except (TypeError, ValueError): again = 'rejected the value it had accepted'
+        return 'accepted', got, want, again
+    return Case(call, {}, [])
+
+
+def _ty_spec(cfg, i, path):
+    if path.outcome != 'ret': return False
+    verdict, got, want, again = path.value
+    T = TYPED[cfg['converter']][0]
+    if want is REJECT: return verdict == 'rejected'
+    # accepted: the value kept has EXACTLY the declared type (a datetime is not a date value), is the documented normalisation, and validating it again changes nothing
+    return verdict == 'accepted' and type(got) is T and got == want and type(again) is T and again == got
+
+
 CONTRACTS = [
     Contract('IntConverter', ['pony.orm.dbapiprovider:IntConverter.init', 'pony.orm.dbapiprovider:IntConverter.validate'],
              _int_configs, _int_case, [('accepts_iff_within_declared_bounds', _int_accept), ('init_accepts_iff_bounds_fit_size', _int_decl)],
@@ -395,4 +451,9 @@ CONTRACTS = [
                                      'pony.orm.core:EntityMeta.get', 'pony.orm.core:EntityMeta.exists', 'pony.orm.core:EntityMeta.select'],
              _sites_configs, _sites_case, [('reaches_attr_validate', lambda cfg, i, path: path.outcome == 'ret' and path.value is True)],
              doc='creation, assignment, set(), get(), exists(), select(**kw) each pass the value through attr.validate (ground)'),
+    Contract('typed_converters.validate', ['pony.orm.dbapiprovider:DateConverter.validate', 'pony.orm.dbapiprovider:DatetimeConverter.validate', 'pony.orm.dbapiprovider:TimeConverter.validate',
+                                           'pony.orm.dbapiprovider:TimedeltaConverter.validate', 'pony.orm.dbapiprovider:BoolConverter.validate', 'pony.orm.dbapiprovider:BlobConverter.validate',
+                                           'pony.orm.dbapiprovider:UuidConverter.validate', 'pony.orm.dbapiprovider:ConverterWithMicroseconds.round_microseconds_to_precision'],
+             _ty_configs, _ty_case, [('accepted_value_has_exactly_the_declared_type_and_the_documented_normal_form', _ty_spec)], level='bounded',
+             bound='7 converters x 5 - 9 candidate values each (right type, subclass, text, wrong types) x precisions 0 / 3 / 6 where they apply'),
 ]
